@@ -60,6 +60,13 @@ def handle (args : List String) : String :=
       | some t, some v => if t.consistent then renderOr bitsToString (enc t v) else "inconsistent-descriptor"
       | _, _ => "bad-op"
     | _ => "bad-op"
+  | "desccheck" :: _ :: r =>
+    match rest r with
+    | some [t] =>
+      match tyOfSx t with
+      | some ty => if ty.consistent then "ok " ++ String.intercalate " " r else "inconsistent-descriptor"
+      | none => "bad-op"
+    | _ => "bad-op"
   | "conf" :: _ :: r =>
     match rest r with
     | some [t, v] =>
